@@ -3,6 +3,7 @@
 #include "ops_common.hpp"
 #include "smooth/spline/bspline.hpp"
 #include "smooth/spline/cumulative_spline.hpp"
+#include "smooth/spline/reparameterize.hpp"
 #include "smooth/spline/spline.hpp"
 
 namespace ops {
@@ -69,7 +70,7 @@ struct SplineIO {
 };
 
 inline const char* const kSplineFn[] = {"eval", "eval_vel", "eval_vel_acc", "crop", "arclength", "info", "copy_concat",
-                                        "eval_many", "crop_degenerate", "arclength_many"};
+                                        "eval_many", "crop_degenerate", "arclength_many", "reparameterize"};
 constexpr int kSplineNFn = sizeof(kSplineFn) / sizeof(kSplineFn[0]);
 
 template<int K, class G, class Tag>
@@ -158,6 +159,19 @@ struct SplineOps {
           out.tag("n/a");
         }
         break;
+      case 10: {
+        // time scaling under velocity / acceleration bounds: one LP per sample, sized by Dof<G>
+        const T vmax = T::Constant(1.0), amax = T::Constant(1.5);
+        const auto sc = smooth::reparameterize_spline(sp, -vmax, vmax, -amax, amax, 1, 1, 10);
+        out.f64(sc.t_max());
+        for (int i = 0; i <= 6; ++i) {
+          Eigen::Matrix<double, 1, 1> ds, d2s;
+          out.f64(sc(sc.t_max() * i / 6.0, ds, d2s));
+          out.f64(ds(0));
+          out.f64(d2s(0));
+        }
+        break;
+      }
       default: out.tag("?"); break;
     }
   }
@@ -295,7 +309,11 @@ struct CsplOps {
     const Data& d = *st->d;
     static constexpr double us[] = {0.0, 1.0, 0.5, 0.123};
     const double u = us[(op.p[2] + op.p[3]) & 3];
-    const auto& B = smooth::kMappedBasisFunction<K>;
+    // cumulative Bernstein basis from the public polynomial API (not from the library's internal
+    // mapped copy, which a refactor may rename or remove)
+    static constexpr auto kB = smooth::polynomial_cumulative_basis<smooth::PolynomialBasis::Bernstein, K, double>();
+    const Eigen::Matrix<double, K + 1, K + 1> B =
+      Eigen::Map<const Eigen::Matrix<double, K + 1, K + 1, Eigen::RowMajor>>(kB[0].data());
     switch (op.p[0]) {
       case 0: put_elem(out, smooth::cspline_eval_vs<K, G>(d.V.colwise(), B, u)); break;
       case 1: {
